@@ -137,6 +137,12 @@ func LabelID(id int64) string {
 //
 //	http://www.llvm.org/docs/LangRef.html#identifiers
 func TypeName(name string) string {
+	// Numeric type names denote numbered types, which are kept unquoted; e.g.
+	//
+	//    %2
+	if _, err := strconv.ParseUint(name, 10, 64); err == nil {
+		return "%" + name
+	}
 	return "%" + EscapeIdent(name)
 }
 
@@ -228,9 +234,14 @@ const (
 )
 
 // EscapeIdent replaces any characters which are not valid in identifiers with
-// corresponding hexadecimal escape sequence (\XX).
+// corresponding hexadecimal escape sequence (\XX). Identifiers containing such
+// characters, and identifiers with a leading digit, are quoted.
 func EscapeIdent(s string) string {
-	replace := false
+	// An identifier with a leading digit is quoted, as the unquoted form would
+	// be read as an unnamed ID followed by a stray token; e.g.
+	//
+	//    "1a" -> `"1a"`
+	replace := len(s) > 0 && strings.IndexByte(decimal, s[0]) != -1
 	extra := 0
 	for i := 0; i < len(s); i++ {
 		if strings.IndexByte(tail, s[i]) == -1 {
